@@ -104,6 +104,7 @@ func (pm *ProfileMergeV2) Merge(p *prof.Profile) error {
 		for _, label := range s.Label {
 			label.Key = strIdx[label.Key]
 			label.Str = strIdx[label.Str]
+			label.NumUnit = strIdx[label.NumUnit]
 		}
 		for i := range s.LocationId {
 			s.LocationId[i] = locationIdx[s.LocationId[i]]
